@@ -107,6 +107,14 @@ func eq(a, b Term) Term {
 	}
 	return Term{"(= " + a.S + " " + b.S + ")", SBool}
 }
+// same: structural identity (for floats: same bit pattern class, so that the sign of a zero and NaN-ness survive
+// boxing into an interface); eq is Go's == (IEEE comparison for floats).
+func same(a, b Term) Term {
+	if a.S == b.S {
+		return tTrue
+	}
+	return Term{"(= " + a.S + " " + b.S + ")", SBool}
+}
 func ite(c, a, b Term) Term {
 	if c.S == "true" || a.S == b.S {
 		return a
@@ -156,6 +164,7 @@ type Obligation struct {
 }
 
 type Enc struct {
+	usedAxioms map[string]bool // trusted spec axioms (by trigger symbol) that entered this function's queries
 	usesUncomparable bool // an interface comparison was encoded (declare uncomparable_tag and its facts)
 	roCells []roCell // local cells no callee can write (see cellWrittenOnlyHere)
 	csHit map[string]bool // callsite clauses that matched a call
@@ -702,6 +711,12 @@ func (e *Enc) havocAll(st *State) {
 	for name, g := range e.w.CS.Ghosts {
 		if g.Local || g.Stable {
 			k, _ := e.ghostKey(name)
+			keep[k] = e.heapGet(st, k)
+		}
+	}
+	for k := range st.heaps {
+		// iteration ghosts (visited set of a map range, code-point count of a string range) are local to the activation
+		if strings.HasPrefix(k, "RS:") || strings.HasPrefix(k, "RN:") {
 			keep[k] = e.heapGet(st, k)
 		}
 	}
